@@ -30,7 +30,9 @@ RULE = ("programs are drawn by the typed, scope-aware generator G-PROG (Hypothes
         "programs (2 configurations by rotation). Interactions (G-NEST): every construct inside every "
         "other one - 19 containers x 19 containers x 25 items, 19 containers x 25 x 25 adjacent items, "
         "four containers deep x 25 items; 2 probe schedules, one configuration by rotation (thorough: 3 "
-        "schedules, all 8).")
+        "schedules, all 8). Data values: the same programs, the pool and the zoo with their literals "
+        "rewritten into falsy values, negative numbers, empty collections or non-ASCII text (one mode by "
+        "rotation); variants whose original raises are discarded.")
 
 # engines whose cases are whole programs compared by oracle.check_program / kit.compare_obs, i.e.
 # by exactly what C01 states (a probe is a print the user could have written)
@@ -93,6 +95,50 @@ def _nest_shard(item):
     return part
 
 
+def _perturbed_shard(item):
+    """data-value variety (gen/perturb.py): the interaction programs, the pool and the zoo with their
+    literals rewritten into falsy values / negative numbers / empty collections / non-ASCII text.
+    Each variant is a program of its own (its original against its conversion); variants whose
+    original raises or runs away are outside the domain"""
+    from ..gen import nest, perturb
+    from ..kit import Kit
+    idx, nshards, all8 = item
+    part = new_part()
+    cases = list(nest.triples()) + list(nest.item_pairs()) + list(nest.deep())
+    sources = []
+    for k in range(idx, len(cases), nshards):
+        src = nest.build(*cases[k])
+        if src is not None:
+            sources.append((k, src))
+    progs = sorted(pool.all_programs().items())
+    for j in range(idx, len(progs), nshards):
+        for m in range(len(perturb.MODES)):
+            sources.append((j * 4 + m, progs[j][1]))
+    for k, src in sources:
+        mode = perturb.MODES[k % len(perturb.MODES)]
+        v = perturb.perturb(src, mode)
+        if v is None:
+            part["discarded"]["perturb:nothing-to-change"] += 1
+            continue
+        for sched in (0, 2):
+            o = run_code(v, "exec", Kit(sched, 200000), wall=3)
+            if not o["ok"]:
+                part["discarded"]["perturb:%s:original-raises" % mode] += 1
+                continue
+            part["evaluations"] += 1
+            part["classes"]["perturbed:" + mode] += 1
+            part["nontrivial"].add(key_hash(v, sched))
+            cfgs = env.ALL_CFGS if all8 else [env.ALL_CFGS[(k + sched) % 8]]
+            status, failures, _ = check_program(v, cfgs, sched, orig=o)
+            if status == "fail":
+                cfg, diffs, text = failures[0]
+                if len(part["violations"]) < 3:
+                    part["violations"].append({"payload": program_payload(v, cfg, sched), "diffs": diffs,
+                                               "what": "[%s-valued variant] behaves differently after conversion (%s)" % (mode, env.cfg_name(cfg))})
+                break
+    return part
+
+
 def plain_programs(report):
     from . import c11, c12
     quick = report.tier == "quick"
@@ -107,6 +153,8 @@ def plain_programs(report):
     for part in env.pmap(_plain_shard, [progs[i::n] for i in range(n)]):
         report.absorb(part)
     for part in env.pmap(_nest_shard, [(i, n, not quick) for i in range(n)]):
+        report.absorb(part)
+    for part in env.pmap(_perturbed_shard, [(i, n, not quick) for i in range(n)]):
         report.absorb(part)
     # host dimension of the interaction sweep: a seeded stride under the other host interpreters
     from .. import hosts
